@@ -178,6 +178,13 @@ where
         let mut num_fixed_columns = [0u8; 4];
         reader.read_exact(&mut num_fixed_columns)?;
         let num_fixed_columns = u32::from_le_bytes(num_fixed_columns);
+        // Selectors are converted into fixed columns at key generation.
+        if num_fixed_columns as usize != cs.num_fixed_columns + cs.num_selectors {
+            return Err(io::Error::new(
+                io::ErrorKind::InvalidData,
+                "unexpected number of fixed commitments",
+            ));
+        }
 
         let fixed_commitments: Vec<_> = (0..num_fixed_columns)
             .map(|_| CS::Commitment::read(reader, format))
